@@ -140,7 +140,7 @@ def run_case(case):
                     "C01:unread-auxdata-bytes-rewritten",
                     "%s aux %r: %s -> %s" % (where, key, holder1.aux_data[key].data.hex(), holder2.aux_data[key].data.hex()),
                 )
-    second_generation_edits(g, case, r, ir2, node, res)
+    second_generation_edits(g, dict(case, _built_ir=ir), r, ir2, node, res)
     if res.failures:
         return res
     # third generation: every AuxData of ir2 has been read by snapshot()
@@ -192,12 +192,17 @@ def second_generation_edits(g, case, r, ir2, node, res):
     from vlib import tngrammar
 
     res.tag("second-generation-edits")
-    ir_fresh = g.IR.load_protobuf_file(io.BytesIO(save(ir2)))  # nothing read on this object yet
+    if case.get("edit_target"):
+        # the originally built IR, which has been saved once already: a later
+        # save must reflect the edits (no stale serialisation state)
+        ir_fresh = case["_built_ir"]
+    else:
+        ir_fresh = g.IR.load_protobuf_file(io.BytesIO(save(ir2)))  # nothing read on this object yet
     lookup = ir_fresh.get_by_uuid
     expected_aux = {}
     holders = [(r.spec["ir"], ir_fresh)] + [(mi["spec"], lookup(r.uuid(mi["spec"]))) for mi in r.mods]
     for e in edits:
-        kind = e % 5
+        kind = e % 9
         if kind == 0:
             for hs, holder in holders:
                 for a in hs["aux"]:
@@ -222,6 +227,45 @@ def second_generation_edits(g, case, r, ir2, node, res):
                     sy.value = 0
                 else:
                     sy.value = None
+        elif kind == 5:
+            secs = [lookup(r.uuid(s_)) for mi in r.mods for s_ in mi["spec"]["sections"]]
+            if secs:
+                s_ = secs[e % len(secs)]
+                s_.name = s_.name + "'"
+                if g.Section.Flag.Writable in s_.flags:
+                    s_.flags.discard(g.Section.Flag.Writable)
+                else:
+                    s_.flags.add(g.Section.Flag.Writable)
+        elif kind == 6:
+            blks = [lookup(r.uuid(b)) for mi in r.mods for b in mi["blocks"]]
+            if blks:
+                b = blks[e % len(blks)]
+                b.offset = (b.offset + 1) % (1 << 64)
+                b.size = (b.size + 2) % (1 << 64)
+                if isinstance(b, g.CodeBlock):
+                    b.decode_mode = g.CodeBlock.DecodeMode.Thumb if b.decode_mode == g.CodeBlock.DecodeMode.Default else g.CodeBlock.DecodeMode.Default
+        elif kind == 7:
+            nodes = list(ir_fresh.cfg_nodes)
+            if nodes:
+                a, b = nodes[e % len(nodes)], nodes[(e // 3) % len(nodes)]
+                edge = g.Edge(a, b, g.Edge.Label(g.Edge.Type.Syscall, bool(e % 2), bool(e % 3)))
+                if edge in ir_fresh.cfg:
+                    ir_fresh.cfg.discard(edge)
+                else:
+                    ir_fresh.cfg.add(edge)
+                if len(ir_fresh.cfg) and e % 4 == 0:
+                    ir_fresh.cfg.discard(next(iter(ir_fresh.cfg)))
+        elif kind == 8:
+            bis = [(mi, lookup(r.uuid(bi))) for mi in r.mods for bi in mi["intervals"] if mi["symbols"]]
+            if bis:
+                mi, bi = bis[e % len(bis)]
+                sym = lookup(r.uuid(mi["symbols"][e % len(mi["symbols"])]))
+                off = e % 7
+                if off in bi.symbolic_expressions and e % 2:
+                    del bi.symbolic_expressions[off]
+                else:
+                    bi.symbolic_expressions[off] = g.SymAddrConst(e - 20, sym, {g.SymbolicExpression.Attribute.PLT} if e % 3 else set())
+                bi.size = max(bi.size, len(bi.contents)) + 1
         elif kind == 4 and r.mods:
             mi = r.mods[e % len(r.mods)]
             m = lookup(r.uuid(mi["spec"]))
@@ -251,7 +295,8 @@ def second_generation_edits(g, case, r, ir2, node, res):
 def strategy():
     from hypothesis import strategies as st
 
-    return st.fixed_dictionaries({"spec": specmod.specs(), "edits": st.one_of(st.just([]), st.lists(st.integers(0, 50), min_size=1, max_size=4))})
+    return st.fixed_dictionaries({"spec": specmod.specs(), "edits": st.one_of(st.just([]), st.lists(st.integers(0, 90), min_size=1, max_size=5)),
+                                  "edit_target": st.integers(0, 1)})
 
 
 def run_job(job):
